@@ -778,6 +778,47 @@ func checkC19(ix *index, add addFn) {
 			}
 		}
 	}
+	// a request whose own Write failed with an injected transport error: that
+	// error stays findable, it is never collapsed to bare io.EOF, and the request
+	// keeps its retry handle
+	for k := range sc.Ops {
+		op := &sc.Ops[k]
+		o := ix.ops[k]
+		if !blockingKind(op) || o.inv < 0 || o.ret < 0 || o.ret >= ix.end() || o.err == "" {
+			continue
+		}
+		own := false
+		for i := o.inv; i <= o.ret; i++ {
+			r := &ix.tr[i]
+			if r.Kind == "write" && r.B && r.Conn == op.Cli+1 && r.T == ix.tr[o.ret].T {
+				own = true
+			}
+		}
+		if !own || op.Kind == "connect" || op.Kind == "disconnect" || op.Kind == "ping" {
+			continue
+		}
+		if !hasCls(o.cls, "simwrite") && !hasCls(o.cls, "simwriteeof") {
+			add("sentinel", fmt.Sprintf("op %d (%s): its Write failed with the transport's error, which errors.Is no longer finds in %q", k, op.Kind, o.err), map[string]string{"want": "transport-error"})
+		}
+		if hasCls(o.cls, "eof=") {
+			add("no-false-sentinel", fmt.Sprintf("op %d (%s): a transport error that merely wraps io.EOF came back as bare io.EOF", k, op.Kind), map[string]string{"got": "eof="})
+		}
+		interrupted := op.Kind == "publish" && op.QoS > 0 || op.Kind == "subscribe" || op.Kind == "unsubscribe" || op.Kind == "retryhandle"
+		if interrupted && !hasCls(o.cls, "retry") {
+			add("retry-handle", fmt.Sprintf("op %d (%s): its Write failed and the error carries no retry handle (%q)", k, op.Kind, o.err), map[string]string{"kind": "write-failed"})
+		}
+	}
+	// a context error must be the error of the context the caller passed
+	for k := range sc.Ops {
+		op := &sc.Ops[k]
+		o := ix.ops[k]
+		if !blockingKind(op) || o.ret < 0 || o.ret >= ix.end() || o.err == "" {
+			continue
+		}
+		if (hasCls(o.cls, "canceled") || hasCls(o.cls, "deadline")) && !o.ctxDone {
+			add("no-false-sentinel", fmt.Sprintf("op %d (%s) returned %q although the context it was given is still alive", k, op.Kind, o.err), map[string]string{"got": "foreign-context"})
+		}
+	}
 	// validation errors and calls before Connect: right sentinel, nothing written
 	connectAt := -1
 	for k, op := range sc.Ops {
